@@ -239,7 +239,14 @@ def main(pid="C02"):
         _costs = {}
     tasks = sorted(tasks, key=lambda t: -_costs.get(task_label(t), 4.0))
     heavy = {i for i, t in enumerate(tasks) if _costs.get(task_label(t), 0) > 200}
-    results = C.run_tasks(fork, tasks, heavy=heavy)
+    procs = None
+    if len(tasks) == len(all_tasks):
+        # complete run: the largest sub-forks need 10+ GB each (more with the thorough tier's 4096
+        # patterns); two of them at a time, 12 workers in all
+        os.environ.setdefault("VERIF_HEAVY_SLOTS", "2")
+        os.environ.setdefault("VERIF_TASK_MEM_GB_HEAVY", "18")
+        procs = min(12, int(os.environ.get("VERIF_PROCS", "14")))
+    results = C.run_tasks(fork, tasks, procs=procs, heavy=heavy)
     for r in results:
         chk.absorb_dict(r)
     chk.extra["macrovectors_feasible"] = nfeasible
